@@ -94,6 +94,7 @@ func New(next http.Handler, expression string, options ...Option) (*CircuitBreak
 	}
 	cb.metrics = mt
 
+	verifEmit("cb.new", cb, int64(cb.fallbackDuration), int64(cb.recoveryDuration), int64(cb.checkPeriod))
 	return cb, nil
 }
 
